@@ -318,4 +318,78 @@ Proof.
   apply seq_NoDup.
 Qed.
 
+(* a Close call that has got as far as its unlock (or has returned) with success has its CLOSE request on the wire; with
+   no_request_after_close: exactly one CLOSE, and it is the last request *)
+Definition close_sent (s : fst8) : Prop :=
+  (forall c t, thr_of c (threads s) = Some t -> st t <> SRel false) /\
+  (forall c t, thr_of c (threads s) = Some t -> kind t = MClose -> (st t = SSend 0 \/ st t = SDone false) ->
+     existsb is_close (wire s) = true).
+
+Lemma close_sent_init : forall calls, close_sent (finit calls).
+Proof.
+  intros calls. split.
+  - intros c t Ht H. rewrite (finit_thr calls c t Ht) in H. discriminate.
+  - intros c t Ht _ [H|H]; rewrite (finit_thr calls c t Ht) in H; discriminate.
+Qed.
+
+Lemma close_sent_step : forall s l s', close_sent s -> fstep s l = Some s' -> close_sent s'.
+Proof.
+  intros s l s' [Hnr Hcs] H. destruct l as [c|c|c|c]; cbn [fstep] in H;
+    destruct (thr_of c (threads s)) as [t|] eqn:Ht; try discriminate.
+  - destruct (st t) eqn:Est; try discriminate.
+    match type of H with (if ?b then _ else _) = _ => destruct b end; [|discriminate]. inversion H; subst s'. clear H.
+    split; intros a ta Ha; cbn [threads wire] in *; rewrite (thr_of_set' c t _ _ a Ht) in Ha; destruct (a =? c).
+    + inversion Ha; subst ta. discriminate.
+    + apply (Hnr a ta Ha).
+    + inversion Ha; subst ta. intros _ [Hs|Hs]; discriminate.
+    + apply (Hcs a ta Ha).
+  - destruct (st t) eqn:Est; try discriminate. destruct (closed s).
+    + inversion H; subst s'. clear H.
+      split; intros a ta Ha; cbn [threads wire] in *; rewrite (thr_of_set' c t _ _ a Ht) in Ha; destruct (a =? c).
+      * inversion Ha; subst ta. discriminate.
+      * apply (Hnr a ta Ha).
+      * inversion Ha; subst ta. intros _ [Hs|Hs]; discriminate.
+      * apply (Hcs a ta Ha).
+    + destruct (kind t) eqn:Ek; inversion H; subst s'; clear H;
+        (split; intros a ta Ha; cbn [threads wire] in *; rewrite (thr_of_set' c t _ _ a Ht) in Ha; destruct (a =? c);
+         [inversion Ha; subst ta; discriminate | apply (Hnr a ta Ha) | inversion Ha; subst ta; cbn [with_stage st kind] | apply (Hcs a ta Ha)]).
+      * intros Hk. congruence.
+      * intros Hk. congruence.
+      * intros _ [Hs|Hs]; discriminate.
+  - destruct (st t) as [| |[|n]| |] eqn:Est; try discriminate. inversion H; subst s'. clear H.
+    split; intros a ta Ha; cbn [threads wire] in *; rewrite (thr_of_set' c t _ _ a Ht) in Ha; destruct (a =? c) eqn:Ea.
+    + inversion Ha; subst ta. discriminate.
+    + apply (Hnr a ta Ha).
+    + inversion Ha; subst ta. cbn [with_stage st kind]. intros Hk _. rewrite Hk. rewrite existsb_app. cbn [existsb is_close]. apply orb_true_r.
+    + intros Hk Hs. rewrite existsb_app. rewrite (Hcs a ta Ha Hk Hs). reflexivity.
+  - assert (Hrel : exists b, s' = mkF (closed s) (wire s) (set_thr c (with_stage t (SDone b)) (threads s)) /\ (b = false -> st t = SSend 0)).
+    { destruct (st t) as [| |[|n]|b|] eqn:Est; try discriminate; inversion H; subst s'.
+      - exists false. split; [reflexivity | intros _; reflexivity].
+      - exists b. split; [reflexivity|]. intros ->. exfalso. apply (Hnr c t Ht). exact Est. }
+    destruct Hrel as [b [-> Hb]]. clear H.
+    split; intros a ta Ha; cbn [threads wire] in *; rewrite (thr_of_set' c t _ _ a Ht) in Ha; destruct (a =? c) eqn:Ea.
+    + inversion Ha; subst ta. discriminate.
+    + apply (Hnr a ta Ha).
+    + inversion Ha; subst ta. cbn [with_stage st kind]. intros Hk [Hs|Hs]; [discriminate|]. inversion Hs; subst b.
+      apply (Hcs c t Ht Hk). left. apply Hb. reflexivity.
+    + apply (Hcs a ta Ha).
+Qed.
+
+(* exactly one close request: a Close call that returned without error has written its CLOSE, no other CLOSE was written,
+   and nothing was written after it *)
+Theorem successful_close_sent_exactly_one : forall calls tr s c t, frun8 (finit calls) tr = Some s ->
+  thr_of c (threads s) = Some t -> kind t = MClose -> st t = SDone false ->
+  exists pre c', wire s = pre ++ [WClose c'] /\ noclose pre.
+Proof.
+  intros calls tr s c t H Ht Hk Hs.
+  assert (Hcs : close_sent s).
+  { clear Ht Hk Hs. revert H. generalize (close_sent_init calls). generalize (finit calls).
+    induction tr as [|l tr IH]; intros s0 H0 Hr; cbn [frun8] in Hr; [inversion Hr; subst; exact H0|].
+    destruct (fstep s0 l) as [s1|] eqn:E; [|discriminate]. apply (IH s1 (close_sent_step s0 l s1 H0 E) Hr). }
+  destruct Hcs as [_ Hcs]. pose proof (Hcs c t Ht Hk (or_intror Hs)) as Hex.
+  destruct (no_request_after_close calls tr s H) as [_ [pre [Hpre [Hw|[c' Hw]]]]].
+  - rewrite Hw in Hex. unfold noclose in Hpre. congruence.
+  - exists pre, c'. split; assumption.
+Qed.
+
 End FileLockP.
